@@ -384,16 +384,23 @@ def op_target(op):
 # ------------------------------------------------------------------ verification of the file against the model
 
 def _close(imp):
-    try:
-        imp._file.close()
-    except Exception:   # noqa
-        pass
+    """The importer has no close(); release its handle so that the exporter can reopen the file."""
+    for attr in ("_file", "file"):
+        try:
+            getattr(imp, attr).close()
+            return
+        except Exception:   # noqa
+            pass
+    import gc
+    del imp
+    gc.collect()
 
 
 def verify(path, model, out, log, step, absent=None, deep=True):
     """V1/V2/V4: open the file read-only with the public importer and compare
     everything acknowledged with the model.  Returns False on violation."""
     ok = True
+    raw = None
     try:
         imp = VMAPImport(path)
     except Exception as e:   # noqa
@@ -414,7 +421,7 @@ def verify(path, model, out, log, step, absent=None, deep=True):
             out.violate("V1-acknowledged-durable" if set(model.geoms) - set(geoms) else "V2-failed-leaves-nothing",
                         "geometry-list", {"step": step, "file": geoms, "model": sorted(model.geoms)})
             return False
-        raw = imp._file
+        raw = h5py.File(path, "r")
         for g in geoms:
             mesh = model.geoms[g]
             ok = _verify_geometry(imp, raw, g, mesh, model, out, log, step) and ok
@@ -455,6 +462,10 @@ def verify(path, model, out, log, step, absent=None, deep=True):
                     return False
     finally:
         _close(imp)
+        try:
+            raw.close()
+        except Exception:   # noqa
+            pass
     return ok
 
 
